@@ -31,6 +31,12 @@ TIMEOUT = {"quick": 900, "thorough": 7200}
 BIG = {n: bytes((i * 7 + n) % 251 for i in range(n)) for n in (4094, 4095, 4096, 4097, 4098, 8190, 8191, 8192, 8193, 8194, 12289)}
 
 
+PROBE_KEY = "zz-next-call-probe"
+# raw_command scenarios whose end token occurs before the end of the server's reply: what follows the token is the
+# caller's business (whole delivery happens to swallow it, split delivery leaves it on the socket) - no follow-up there
+TOKEN_BEFORE_END = {"raw-version-1byte-mid", "raw-get-token-in-value"}
+
+
 def scenarios():
     """-> list of (name, prefill{key:(value,flags)}, op, cfg, expect_or_None, fault_or_None, server_kw)"""
     S = []
@@ -137,6 +143,8 @@ def scenarios():
 def deliver(sc, segspec):
     """Run scenario under a delivery schedule -> (outcome, reply_len, pieces)"""
     name, prefill, op, cfg, expect, fault, server_kw = sc
+    prefill = dict(prefill)
+    prefill[PROBE_KEY.encode()] = (b"probe-value", 0)
     case = {"stack": "client", "servers": [("mc1", 11211)], "cfg": cfg, "ops": [op], "faulted": 0,
             "faults": {}, "seg": segspec, "prefill": {0: prefill}}
     spec = {"stack": "client", "servers": case["servers"], "cfg": dict(cfg), "seg": segspec,
@@ -162,6 +170,11 @@ def deliver(sc, segspec):
         out = w.call(0, op)
         if out[0] == "exc":
             out = out[:2]
+        # the next call on the same object: a reader that stops early (or late) under some segmentation leaves the
+        # connection at a different stream position than the single-piece delivery does
+        if op[0] not in ("flush_all", "shutdown") and name not in TOKEN_BEFORE_END:
+            nxt = w.call(1, ("get", (PROBE_KEY,), {}))
+            out = out + (("next",) + tuple(nxt[:2]),)
     w.close()
     return out, net.counts.get("bytes_delivered", 0), net.counts.get("pieces", 0)
 
@@ -221,12 +234,18 @@ def cutsets(L, tier, rng, scenario_name):
     for c in (positions if L <= 64 else rng.sample(positions, 64 if L <= 600 else 12)):
         yield (c,), (c,)
         yield (c,), (0,)
+    # several interrupted system calls in a row in one gap
+    for c in (positions if L <= 24 else rng.sample(positions, 8)):
+        yield (c,), (c, c)
+        yield (c,), (0, 0, 0, c, c, c)
     if L <= 64:
         yield tuple(positions), tuple([0] + positions)
 
 
 def same(a, b):
     if a[0] != b[0]:
+        return False
+    if a[2:] != b[2:]:          # the follow-up call on the same object
         return False
     if a[0] == "ret":
         return a[1] == b[1] and type(a[1]) is type(b[1]) and repr(a[1]) == repr(b[1])
